@@ -11,10 +11,16 @@
 static __thread uint8_t *tape = NULL;
 static __thread size_t tape_len = 0, tape_pos = 0;
 static __thread size_t hx_rand_calls = 0;
+static __thread long hx_rand_fail = -1;
+size_t hx_rand_last_calls = 0;               /* requests made during the last taped operation */      /* "rand_fail": k — the k-th call (from 0) reports failure (returns 0, writes nothing) */
 
 int
 RAND_bytes(unsigned char *buf, int num)
 {
+    if (hx_rand_fail >= 0 && (long) hx_rand_calls == hx_rand_fail) {
+        hx_rand_calls++;
+        return 0;
+    }
     hx_rand_calls++;
     if (tape && num >= 0 && tape_pos + (size_t) num <= tape_len) {
         memcpy(buf, tape + tape_pos, num);
@@ -31,6 +37,7 @@ hx_tape_set(json_t *args)
     tape = hx_arg_hex(args, "rand", &tape_len);
     tape_pos = 0;
     hx_rand_calls = 0;
+    hx_rand_fail = json_is_integer(json_object_get(args, "rand_fail")) ? (long) json_integer_value(json_object_get(args, "rand_fail")) : -1;
 }
 
 void
@@ -39,6 +46,8 @@ hx_tape_clear(void)
     free(tape);
     tape = NULL;
     tape_len = tape_pos = 0;
+    hx_rand_fail = -1;
+    hx_rand_last_calls = hx_rand_calls;
 }
 
 static json_t *
